@@ -236,9 +236,11 @@ CHECKS["C04"] = {
     "assumptions": ["the state dump covers members, devices, admins, contacts (state, seed, metadata), by-status partition, contact-request switch and seed, joined groups, alias keys, credentials"],
     "units": [
         {"pkg": ".", "run": "^TestVerif_C04_", Q: {"timeout": 900}, T: {"timeout": 3400, "shards": 16}},
+        {"pkg": ".", "run": "^TestVerifCtl_C04_", "inst": ["store_metadata_index.go"], Q: {"timeout": 600}, T: {"timeout": 3000, "shards": 4}},
     ],
     "mandatory_labels": {"all": ["batch>=2", "reopen-at-end", "one-batch-replica", "two-writers", "consecutive-same-subject",
-                                 "multimember-group", "contact-group", "g/several-writers", "g/batch-vs-single", "g/reindex", "g/created-by-writer-0", "subject-chains"]},
+                                 "multimember-group", "contact-group", "g/several-writers", "g/batch-vs-single", "g/reindex", "g/created-by-writer-0", "subject-chains",
+                                 "index/overlapping-passes-over-a-changing-log"]},
 }
 
 CHECKS["C07"] = {
@@ -436,3 +438,19 @@ _ADDED5 = {
 for _k, _v in _ADDED5.items():
     if _v:
         CHECKS[_k]["level_text"] += " " + _v
+_ADDED6 = {
+    "C01": "Single transient datastore write failures during opens (an honest message refused because of one is a violation once the write works again).",
+    "C03": "Forged entries also arrive by replication from a branch concurrent with the victim's history (a replica that merged nothing, Lamport time 1).",
+    "C04": "Controlled schedules (DFS + rapid) of overlapping index passes of the writer's task and the replication task over a log that grows meanwhile (instrumented index; the final state must be the state of the entries held).",
+    "C05": "Single transient datastore write failures during the first announcement (an announced key must be usable).",
+    "C06": "Signatures ground against small-order keys.",
+    "C07": "Contacts whose key is not a point of the curve.",
+    "C08": "Group-context layer with an undecodable entry inside a delivered batch.",
+    "C13": "The whole (since, until, reverse) cube also over merged logs of two writers with concurrent entries, on two replicas.",
+    "C16": "The controlled scheduler models sync.RWMutex writer preference (readers arriving after a waiting writer wait behind it); the peer cache scenarios add readers (GetPeersForTopics / GetPeers) next to updater and waiters.",
+    "C19": "Odd groups (validly signed invitations with secrets of unusual length) joined and then used by the other requests.",
+    "C20": "An older backup refused into an existing account followed by the current export.",
+}
+for _k, _v in _ADDED6.items():
+    CHECKS[_k]["level_text"] += " " + _v
+CHECKS["C04"]["technique"] = "model-based / differential property testing (rapid) over generated operation histories and delivery plans; controlled-schedule exploration (preemption-bounded DFS + rapid) of overlapping index passes"
